@@ -32,3 +32,28 @@ int wrapped_main(int argc, char** argv) {
   }
   return exitval;
 }
+
+/* R-C09-6: extension handler that expands the token although the line ended */
+static bool premature_eol(unsigned char tok) { fprintf(stderr, "eol after 0x%02X\n", tok); return false; }
+static bool handle_ext(unsigned char intro, const char **output,
+		       const unsigned char **input, unsigned char *len)
+{
+  (void)intro;
+  if (*len && **input == 0x98)
+    {
+      ++*input;
+      --*len;
+      *output = "QUIT";
+    }
+  else
+    {
+      *output = "LOAD";		/* BAD: also when *len == 0 */
+    }
+  return true;
+}
+bool use_ext(const unsigned char *p, unsigned char n)
+{
+  const char *o = 0;
+  (void)premature_eol;
+  return handle_ext(0xC8, &o, &p, &n) && o;
+}
